@@ -26,6 +26,10 @@ CHECKS['C02'] = dict(cat='exploration', ref='4 C02',
    text='Runtime monitor on the real unify(): yield count, equality of both sides at the yield, joint canonical snapshot against an independent Robinson unifier (MGU uniqueness up to renaming makes this most-generality and aliasing), symmetry on a fresh copy, pre-state restored after exhaustion/close, all under stacks of earlier unifications held open; plus an online monitor on every engine-internal unify yield while generated programs run.',
    note='Trusted: the reference unifier with occurs check and the STO filter (cases needing a cyclic term under any order are unspecified and discarded). Python constants limited to int and str.',
    tech='runtime assertion monitor on unify with reference-model comparison; online hook on internal unify')
+CHECKS['C03'] = dict(cat='fault_enumeration', ref='4 C03',
+   text='For every generated program/query the complete set of abandonment points is executed on the same engine and variables: exhaust, close/drop/consumer-throw after every k-th answer, a user predicate raising at every entry/resume of a full run, each also under outer unifications held open. An invariant monitor on a weak registry of all Variables (hooked on Variable.__init__) checks after finalisation that the binding state equals the state before, that every internally created variable is unbound, that nothing reached sys.unraisablehook and that every run reproduces the reference answers.',
+   note='Trusted: reference interpreters A and B for the expected answers; "afterwards" read as after generator finalisation (CPython reference counting; a needed gc.collect() is counted and accepted). Fault space enumerated per program is complete for n <= 8 answers and <= 30 user-predicate events.',
+   tech='invariant monitor at a hook (Variable registry, unraisable hook) under enumerated abandonment/fault points')
 PENDING = {}
 
 def main():
